@@ -27,8 +27,11 @@ VERIF = os.path.dirname(os.path.dirname(os.path.abspath(__file__)))
 LEAN_DIR = os.path.join(VERIF, 'lean')
 REPO = os.environ.get('PYGAM_REPO', '/repo')
 OUT_DIR = os.path.join(VERIF, 'out')
-REPLAY_DIR = os.path.join(OUT_DIR, 'replays')
-EVIDENCE_DIR = os.path.join(VERIF, 'evidence')
+# runs against a private copy of the implementation (PYGAM_REPO=<dir>: calibration, seeded changes) keep their replays and
+# evidence apart, so that evidence/<id>.json always describes a run on /repo itself
+_ALT = '' if os.path.realpath(REPO) == os.path.realpath('/repo') else '-' + os.path.basename(os.path.normpath(REPO))
+REPLAY_DIR = os.path.join(OUT_DIR, 'replays' + _ALT)
+EVIDENCE_DIR = os.path.join(VERIF, 'evidence') if not _ALT else os.path.join(OUT_DIR, 'evidence' + _ALT)
 KNOWN_FINDINGS = os.path.join(VERIF, 'known_findings.json')
 DRIVER_BIN = os.path.join(LEAN_DIR, '.lake', 'build', 'bin', 'pgdriver')
 
